@@ -219,9 +219,9 @@ class SHApadding(blockiterator):
         while Bits(c[-1]).ival==0:
             c.pop()
         if len(c)==0: raise PaddingError("failed to remove padding")
-        b = Bits(c.pop())
+        b = Bits(bytes([c.pop()]))
         b.size=str(b).rfind('1')
-        return b''.join(c)+b.bytes()
+        return bytes(c)+b.bytes()
 
 #------------------------------------------------------------------------------
 class Blakepadding(blockiterator):
